@@ -80,6 +80,14 @@ def strings(max_tokens, extra=()):
             if s not in seen:
                 seen.add(s)
                 yield s
+    # long inputs: a marker (or a whole document of the writers) at the start, in the middle and at the end of several
+    # thousand characters of neutral text - the answer may not depend on WHERE in the string the deciding part sits
+    pad = "lorem ipsum dolor sit amet " * 120            # 3240 characters without any marker
+    for core in [t for t in TOKENS if len(t) > 3] + [d[:400] for d in extra]:
+        for s in (core + "\n" + pad, pad + "\n" + core + "\n" + pad, pad + "\n" + core):
+            if s not in seen:
+                seen.add(s)
+                yield s
 
 
 def run(ctx, report, folder, documents, clause_order="1", clause_nothrow="2"):
